@@ -345,7 +345,7 @@ def rule_v1(repo, res):
 def rule_f4(repo, res, modname="__init__"):
     """F4: the text get_text_from returns is the file's text read with the caller's encoding and nothing else -- the
     same text for a path, an open text stream and an open binary stream.  Outcome terms: every return is one of
-    `Path($path).read_text(encoding=$encoding)`, `decode_by_char(<the file opened 'rb'>)`, `decode_by_char($path)`,
+    `Path($path).read_text(encoding=$encoding)`, `decode_by_char(<the file opened 'rb'>)`, `decode_by_char($path)` (or of its `.buffer`),
     `$path.read()`.  A default encoding, codec option or clean-up added on one route only (a byte-order-mark codec for
     paths) makes the entry points, and the command-line tools that hand over open files, disagree."""
     mod = repo.module(modname)
@@ -373,6 +373,11 @@ def rule_f4(repo, res, modname="__init__"):
                 a = n.args[0]
                 if _is_param(a, pvar):
                     ok = True
+                elif isinstance(a, ast.Attribute) and a.attr == "buffer" and _is_param(a.value, pvar):
+                    ok = True        # the byte stream underneath the caller's text stream
+                elif isinstance(a, ast.Call) and ast.unparse(a.func) == "getattr" and len(a.args) == 3 and _is_param(a.args[0], pvar) \
+                        and isinstance(a.args[1], ast.Constant) and a.args[1].value == "buffer" and _is_param(a.args[2], pvar):
+                    ok = True        # ... when it has one
                 elif isinstance(a, ast.Call) and ast.unparse(a.func) == "_with_" and len(a.args) == 1 and isinstance(a.args[0], ast.Call) \
                         and ast.unparse(a.args[0].func) == "open":
                     o = a.args[0]
